@@ -201,6 +201,10 @@ pub struct Dir {
     /// inject a one-off stream-level Unknown error on the next read / write
     pub inject_read_err: bool,
     pub inject_write_err: bool,
+    /// once everything delivered has been read, every read of this direction reports this connection-level
+    /// error although the connection-level calls of the side (accept, open) report nothing yet: a transport
+    /// is free to tell a stream first (h3-quinn does so for its own InternalError)
+    pub read_conn_err: Option<ConnFault>,
     pub deliveries: u32,
     pub first_frame_seen: bool,
 }
@@ -664,6 +668,13 @@ impl Net {
             d.stop_sent = Some(code);
         }
     }
+    /// reads of the direction `sender` -> peer on stream `id` report the connection-level error `f` from now on
+    pub fn raw_stream_conn_error(&mut self, id: u64, sender: u8, f: ConnFault) {
+        obs::ev("raw_stream_conn_error", id, 0);
+        let d = self.dir(id, sender);
+        d.read_conn_err = Some(f);
+        wake(&mut d.rx_waker);
+    }
     pub fn raw_close(&mut self, side: u8, code: u64) {
         self.do_close(side, code, b"raw peer close");
     }
@@ -1062,6 +1073,10 @@ impl quic::RecvStream for SimRecv {
             d.consumed += b.len();
             obs::ev("read", self.id, b.len() as u64);
             return Poll::Ready(Ok(Some(b)));
+        }
+        if let Some(f) = &d.read_conn_err {
+            obs::count("fault.connection_error_reported_on_a_stream_first");
+            return Poll::Ready(Err(f.to_stream()));
         }
         if d.reset_delivered {
             return Poll::Ready(Err(StreamErrorIncoming::StreamTerminated { error_code: d.reset_sent.unwrap() }));
